@@ -642,7 +642,7 @@ func c14Clip(s string) string {
 
 func runC14(tier string, args []string) {
 	run := ev.New("C14", tier, "exploration")
-	run.Rule("configurations = (M processes in {1,2,4,8}) x (N goroutines in {1,4,16}) x writer mix {full: UpdateFullStatus only; full+basic: plus UpdateBasicStatus(stdoutSize -1) writers; daemon-runner: process 0 uses one BaseWorkUnit (UpdateFullStatus/UpdateBasicStatus/Load/Status), the others StatusFileData with a commandRunner-style basic writer; runner-wholesale: the same with explicit stdoutSize} x sleep inside the callback {none, 0-0.4ms, 0-2ms}; record length varied by a seeded pad (up to 48/700/3000 bytes per configuration); quick = every (M,N) once (12), thorough = 120 of the 144 points; roles, pads, sleeps seeded. Each update is unique (id in Detail, StdoutSize+1), p0g0 sets ExtraData once, 1-2 readers per process Load concurrently. distinct_nontrivial = configurations in which at least one cross-process AND at least one cross-goroutine pair of consecutive critical sections was measured whose later call was issued before the earlier callback ended (the lock was really contended both ways). In addition (in-process sub-monitors): concurrent first updates of a status file that does not exist yet; two long-lived writers taking turns, one repeating its values; pick-up of a unit found on disk (the real Workceptor.scanForUnit, reached through UnitStatus of an inactive unit of a work type registered by the harness whose Restart and Cancel each add 1000 to the counter in one UpdateFullStatus) while 3 runner-style writers with their own receivers add 1 per update and dwell up to 1.5 ms inside the callback: the stored counter must be the sum (80 / 800 trials, counted as contended when a runner was inside its update when the scan began); and in-memory snapshots: per unit object (BaseWorkUnit built through the exported workceptor API, in a child process) one goroutine alternately stores record k (State, Detail and StdoutSize all derived from k) in the status file and calls Load() while 4 goroutines call Status()/UnredactedStatus() in a tight loop - every snapshot must be one of the stored records, and race-detector reports with both accesses inside the status-record functions of workunitbase.go are violations; such a unit counts as distinct when its readers saw the record change in at least 1/20 of the loads")
+	run.Rule("configurations = (M processes in {1,2,4,8}) x (N goroutines in {1,4,16}) x writer mix {full: UpdateFullStatus only; full+basic: plus UpdateBasicStatus(stdoutSize -1) writers; daemon-runner: process 0 uses one BaseWorkUnit (UpdateFullStatus/UpdateBasicStatus/Load/Status), the others StatusFileData with a commandRunner-style basic writer; runner-wholesale: the same with explicit stdoutSize} x sleep inside the callback {none, 0-0.4ms, 0-2ms}; record length varied by a seeded pad (up to 48/700/3000 bytes per configuration); quick = every (M,N) once (12), thorough = 120 of the 144 points; roles, pads, sleeps seeded. Each update is unique (id in Detail, StdoutSize+1), p0g0 sets ExtraData once, 1-2 readers per process Load concurrently. distinct_nontrivial = configurations in which at least one cross-process AND at least one cross-goroutine pair of consecutive critical sections was measured whose later call was issued before the earlier callback ended (the lock was really contended both ways). In addition (in-process sub-monitors): concurrent first updates of a status file that does not exist yet; two long-lived writers taking turns, one repeating its values; pick-up of a unit found on disk (the real Workceptor.scanForUnit, reached through UnitStatus of an inactive unit of a work type registered by the harness whose Restart and Cancel each add 1000 to the counter in one UpdateFullStatus) while 3 runner-style writers with their own receivers add 1 per update and dwell up to 1.5 ms inside the callback: the stored counter must be the sum (80 / 800 trials, counted as contended when a runner was inside its update when the scan began); two writers owning different ExtraData fields of a remote unit's record (real startRemoteUnit against the node's own control service in a child process, Cancel() from a second goroutine after a seeded 0-30 ms, delay hook remote.acked=sleep(12) holding the submit path between reading the answer and storing the id): after a successful Cancel() the stored LocalCancelled must stay true (60 / 600 trials, contended = the id was stored and the start was not); and in-memory snapshots: per unit object (BaseWorkUnit built through the exported workceptor API, in a child process) one goroutine alternately stores record k (State, Detail and StdoutSize all derived from k) in the status file and calls Load() while 4 goroutines call Status()/UnredactedStatus() in a tight loop - every snapshot must be one of the stored records, and race-detector reports with both accesses inside the status-record functions of workunitbase.go are violations; such a unit counts as distinct when its readers saw the record change in at least 1/20 of the loads")
 	run.Assume("the no-lost-update clause is judged on read-modify-write (UpdateFullStatus callback) updates; UpdateBasicStatus sets State/Detail(/StdoutSize) wholesale by definition, so it takes part in: owned fields survive, records parse, every observed (Detail,StdoutSize) pair is one stored version, and - with stdoutSize -1 - the increment count")
 	run.Assume("a StatusFileData value is never shared between goroutines (BaseWorkUnit has its own mutex for that); a Load/Update error that is not a JSON parse error (resource exhaustion) makes the configuration inconclusive")
 	run.Assume("Save is a blind overwrite used once at allocation (before any reader or writer starts); it is exercised by C04/C13, not here")
@@ -773,6 +773,7 @@ func runC14(tier string, args []string) {
 	}
 	runC14Turns(run)
 	runC14Scan(run)
+	runC14Remote(run)
 	run.Finish(run.Pick(4, 40))
 }
 
